@@ -295,10 +295,18 @@ def specs(tier):
     rules = [r if r.modifier != 4 else ops.RuleSpec(4, None, "impl") for r in groups.rules()]
     code = [*groups.core_terminals()[:6], *groups.stack_terminals(), *groups.structure(), *groups.backtracking(), *rules, *groups.trivia(), *groups.entry(),
             *templates.all_templates(3 if tier == "quick" else 5, kids="impl")]
-    return [*code, PairTokens(), PairsTokens(), FlattenInner(), PairsFlatten()]
+    from . import c06_dump
+
+    return [*code, PairTokens(), PairsTokens(), FlattenInner(), PairsFlatten(), *c06_dump.specs(tier)]
 
 
 concretise = concretise_ops(PROPERTY, default_modes=("interp", "interp+opt", "gen", "gen+opt"))
+
+
+def _pre(dd):
+    yield dd
+    for x in dd["inner"]:
+        yield from _pre(x)
 
 
 def tree_facts() -> dict:  # noqa: C901, PLR0912, PLR0915
@@ -383,6 +391,22 @@ def tree_facts() -> dict:  # noqa: C901, PLR0912, PLR0915
             def count(dd):
                 return sum(1 + count(x["inner"]) for x in dd)
 
+            # dumps() is pest's format_pair rendering of exactly the information dump() gives: rendered here,
+            # independently, from the dump() structure alone (rule, span.str, inner, node_tag)
+            def fmt(dd, indent, new_line):
+                k = len(dd["inner"])
+                head = ("  " * indent if new_line else "") + ("- " if new_line else "") + (dd["node_tag"] + " " if "node_tag" in dd else "") + dd["rule"]
+                if k == 0:
+                    return head + ": " + json.dumps(dd["span"]["str"])
+                if k == 1:
+                    return head + " > " + fmt(dd["inner"][0], indent, False)
+                return head + "\n" + "\n".join(fmt(x, indent + 1, True) for x in dd["inner"])
+
+            if s1 != "\n".join(fmt(x, 0, True) for x in d):
+                return "dumps() is not the rendering of dump()"
+            for p, dd in zip(fl, (lambda it: it)([y for x in d for y in _pre(x)])):
+                if dd["rule"] != p.name or dd["span"] != {"str": p.text, "start": p.start, "end": p.end} or dd.get("node_tag") != p.tag:
+                    return f"dump() entry of {p.name} disagrees with the pair"
             if count(d) != len(fl) or (fl and sum(1 for ln in s1.splitlines()) < 1):
                 return "dump() node count differs from flatten()"
             for p in fl:
@@ -392,7 +416,7 @@ def tree_facts() -> dict:  # noqa: C901, PLR0912, PLR0915
             return f"dump/dumps raised {type(ex).__name__}: {ex}"[:100]
         return None
 
-    fams = ["sequence", "choice", "repeat", "repeat_once", "rule", "trivia", "push", "stack_backtrack", "optimizer_inline", "predicate"]
+    fams = ["sequence", "choice", "repeat", "repeat_once", "rule", "trivia", "push", "stack_backtrack", "optimizer_inline", "predicate", "tags"]
     for fam in fams:
         spec = diff4.FAMILIES[fam]
         for g in spec["grammars"]:
@@ -444,7 +468,7 @@ def tree_facts() -> dict:  # noqa: C901, PLR0912, PLR0915
                         if why:
                             bad.append({"grammar": rel, "text": inp[:60], "mode": nm + ("+opt" if opt else ""), "what": why})
     return {"name": "c06-tree-facts", "kind": "bounded stand-in (derived well-formedness facts and accessors on real trees)", "evaluations": n,
-            "bound": "10 replay/diff4 families (inputs up to length 4, start positions 0..2) + bundled grammars' corpora, four modes", "violation": bool(bad), "details": bad[:3]}
+            "bound": "11 replay/diff4 families incl. tagged only-children (inputs up to length 4, start positions 0..2) + bundled grammars' corpora, four modes", "violation": bool(bad), "details": bad[:3]}
 
 
 def extra_checks(tier, seed):
